@@ -290,6 +290,51 @@ def listener_validate(chk, binary, sc, recs, limit):
     return len(traces) if not res.violated else 0
 
 
+def token_validate(chk, binary, sc, recs, limit):
+    """Binding of the position function of the layout specification: the tokens the real lexer produced (verif hook after
+    ParseDSL, i.e. after the comment pre-pass) are aligned with the lexemes TLC placed: every lexeme must start exactly
+    where Render says, its text must be the concatenation of the lexer's tokens from there, and between two lexemes only
+    WHITESPACE / NEWLINE tokens may stand. A mismatch is DRIFT of the specification's position model, not a verdict."""
+    docs = [r for r in list(recs.values())[:limit] if r["valid"]]
+    inp, out = sc.path("tok.in.ndjson"), sc.path("tok.out.ndjson")
+    write_ndjson(inp, [{"id": r["id"], "text": r["text"], "modular": r["modular"]} for r in docs])
+    run_harness(binary, ["dsl-tokens", "-in", inp, "-out", out])
+    ok = bad = lexemes = 0
+    for r, o in zip(docs, read_ndjson(out)):
+        toks = [t for t in o["tokens"] if t["t"] != -1]       # EOF
+        if not toks:
+            raise Infra("the token hook recorded nothing for %s (hook removed or not compiled in?)" % r["id"])
+        k = 0
+        good = True
+        for lex, line, col in r["lexemes"]:
+            if lex == "":
+                continue
+            lexemes += 1
+            # skip separators
+            while k < len(toks) and toks[k]["x"].strip(" \t\r\n\f") == "" and not lex.startswith(toks[k]["x"][:1] if toks[k]["x"].strip() else "\0"):
+                k += 1
+            if k >= len(toks) or (toks[k]["l"], toks[k]["c"]) != (line, col):
+                good = False
+                chk.drift.append({"tokens": r["id"], "lexeme": lex[:30], "spec_pos": [line, col], "lexer_pos": [toks[k]["l"], toks[k]["c"]] if k < len(toks) else None})
+                break
+            acc = ""
+            while k < len(toks) and len(acc) < len(lex):
+                acc += toks[k]["x"]
+                k += 1
+            if acc != lex:
+                good = False
+                chk.drift.append({"tokens": r["id"], "lexeme": lex[:40], "lexer_text": acc[:40]})
+                break
+        if good and any(t["x"].strip(" \t\r\n\f") != "" for t in toks[k:]):
+            good = False
+            chk.drift.append({"tokens": r["id"], "note": "lexer produced tokens after the last lexeme", "rest": [t["x"] for t in toks[k:k + 3]]})
+        ok += good
+        bad += not good
+    log("token traces: %d documents / %d lexemes aligned with the real lexer's tokens at the positions the layout specification computes (%d documents off)" % (ok, lexemes, bad))
+    chk.add("lexeme_positions_validated", lexemes)
+    return ok
+
+
 def expected_model(m):
     return {"schema": m["schema"], "types": [{"name": t["name"], "rels": [{"name": x["name"], "rw": x["rw"], "restr": x["restr"]} for x in t["rels"]]} for t in m["types"]],
             "conds": [{"name": c["name"], "expr": c["expr"].strip(), "params": c["params"]} for c in m["conds"]]}
@@ -410,6 +455,9 @@ def run_c16(chk, binary, sc, tier):
     jobs, recs, obs = run_layouts(chk, binary, sc, tier, False, True, False)
     for j in jobs:
         check_positions(chk, recs[j["id"]], obs[j["id"]], j, True)
+    # the position function itself: every lexeme of valid documents against the real lexer's token trace
+    vjobs0, vrecs0, _ = run_layouts(chk, binary, sc, "quick", True, False, False)
+    token_validate(chk, binary, sc, vrecs0, 1500 if tier == "quick" else 6000)
     # rejected byte strings beyond the catalogue: truncations and single-character edits of valid documents (bounds only)
     import random
     rng = random.Random(SEED)
